@@ -97,7 +97,67 @@ Proof.
             intros Q; injection Q as <- <-; cbn; eapply cast_space_in; exact Ec).
   all: destruct v; cbn in Ein |- *; discriminate.
 Qed.
+
+(* ---- the hand-written protocol functions ARE the interpreters of the step lists
+   regenerated from Operator.__call__, _default_call_*, Operator.__new__ ---- *)
+Lemma public_call_is_generated dom ran (ip : pyvalV -> pyvalV -> MV pyvalV) (oop : pyvalV -> MV pyvalV) x out s :
+  public_call_gen junk dom ran ip oop x out s = public_call junk dom ran ip oop x out s.
+Proof.
+  unfold public_call_gen, public_call, call_plan_ip, call_plan_oop.
+  destruct out as [y|]; cbv beta iota zeta delta [run_steps run_step p_x p_out p_res bind ret fail].
+  - destruct (in_space dom x s).
+    + destruct (negb (in_rsp ran y s)); [reflexivity|]. destruct ran; [|reflexivity].
+      destruct (ip x y s) as [r s1|]; [|reflexivity].
+      destruct r, y; try reflexivity. destruct (i =? i0)%nat; reflexivity.
+    + destruct (cast_space junk dom x s) as [[x'|] s0|]; try reflexivity.
+      destruct (negb (in_rsp ran y s0)); [reflexivity|]. destruct ran; [|reflexivity].
+      destruct (ip x' y s0) as [r s1|]; [|reflexivity].
+      destruct r, y; try reflexivity. destruct (i =? i0)%nat; reflexivity.
+  - destruct (in_space dom x s).
+    + destruct (oop x s) as [r s1|]; [|reflexivity].
+      destruct (in_rsp ran r s1); [reflexivity|].
+      destruct (cast_rsp junk ran r s1) as [[r'|] s2|]; reflexivity.
+    + destruct (cast_space junk dom x s) as [[x'|] s0|]; try reflexivity.
+      destruct (oop x' s0) as [r s1|]; [|reflexivity].
+      destruct (in_rsp ran r s1); [reflexivity|].
+      destruct (cast_rsp junk ran r s1) as [[r'|] s2|]; reflexivity.
+Qed.
+Lemma default_oop_is_generated ran (ip : pyvalV -> pyvalV -> MV pyvalV) x s :
+  default_oop_gen junk ran ip x s = default_oop junk ran ip x s.
+Proof.
+  unfold default_oop_gen, default_oop, default_oop_plan.
+  cbv beta iota zeta delta [run_steps run_step p_x p_out p_res bind ret fail].
+  destruct ran as [sp|]; [|reflexivity].
+  destruct (alloc_empty junk sp s) as [o s1|]; [|reflexivity].
+  destruct (ip x (VElem o) s1) as [r s2|]; [|reflexivity].
+  destruct r; try reflexivity. destruct (i =? o)%nat; reflexivity.
+Qed.
 End AnyImpl.
+
+Section AnyImplNum.
+Context {V : Type} `{Num V}.
+Variable junk : nat -> nat -> V.
+Lemma default_ip_is_generated ran (oop : @pyval V -> @M V (@pyval V)) x out s :
+  default_ip_gen junk ran oop x out s = default_ip junk ran oop x out s.
+Proof.
+  unfold default_ip_gen, default_ip, default_ip_plan.
+  cbv beta iota zeta delta [run_steps run_step p_x p_out p_res bind ret fail].
+  destruct (oop x s) as [r s1|]; [|reflexivity].
+  destruct (cast_rsp junk ran r s1) as [[r'|] s2|]; try reflexivity.
+  - destruct r', out; try reflexivity. destruct (do_assign i0 i s2); reflexivity.
+Qed.
+Lemma slots_is_generated (k : kind) ran raw_oop raw_ip x y s :
+  fst (slots_gen junk k ran raw_oop raw_ip) x y s = fst (slots junk k ran raw_oop raw_ip) x y s /\
+  snd (slots_gen junk k ran raw_oop raw_ip) x s = snd (slots junk k ran raw_oop raw_ip) x s.
+Proof.
+  unfold slots_gen, new_slots. destruct k; cbn [slots fst snd]; split; try reflexivity.
+  - apply default_ip_is_generated.
+  - apply (default_oop_is_generated junk).
+Qed.
+End AnyImplNum.
+
+Section AnyImplDummy.
+End AnyImplDummy.
 
 (* ================================================================== *)
 (* Part 2: operator trees over the translated classes and primitive leaves *)
